@@ -17,7 +17,11 @@ func init() {
 		"directly, through a repository callee that writes through the pointer it is given, or by handing it to a type outside a fixed table "+
 		"(API client, Scheme, logger, event recorder, Prometheus vectors, the apimachinery equality table: none of them holds reconcile decisions; the failed-pod back-off is the one named exception, whose loss the property itself declares harmless); "+
 		"(R2) fields of the four Reconciler structs are assigned only on a freshly allocated reconciler (the constructor), anywhere in the repository; "+
-		"(R3) in each Reconcile a Get keyed by the request (issued directly or by a helper that always performs it) dominates every API write, and every object handed to an API write is rooted in memory allocated, read or copied during the same invocation (never a package variable or a reconciler field).", runC11)
+		"(R3) in each Reconcile a Get keyed by the request (issued directly or by a helper that always performs it) dominates every API write, and every object handed to an API write is rooted in memory allocated, read or copied during the same invocation (never a package variable or a reconciler field); "+
+		"and three structural necessary conditions of the fault clause: (R4) the pod Create (GenerateName, hence not idempotent) is issued once per creation candidate and never re-issued in the same invocation, so a lost answer cannot yield a second pod; "+
+		"(R5) no error of an API read is swallowed: when a Get/List — or a repository function that forwards such an error — fails, the caller returns an error depending on it, collects it into the sync's error list, or the failure is an IsNotFound (two named exceptions in the status-only settings reconciler), so nothing is planned on a partial view; "+
+		"(R6) the two-step rollback write (status, then spec) is recomputed from scratch on the next reconcile. "+
+		"Safety at every intermediate fault point and convergence after faults are histories and are NOT decided.", runC11)
 }
 
 var c11Stateless = []struct{ prefix, reason string }{
@@ -106,6 +110,7 @@ func runC11(r *Run) {
 		c11FirstEffect(r, n, entries[n])
 		c11WrittenObjects(r, n, entries[n])
 	}
+	c11Extra(r)
 }
 
 // c11FieldStores implements R2.
